@@ -39,6 +39,29 @@ def findings(m, f, callee, argpos):
             continue
         x = c.args[argpos].id
         n += 1
+        # a failure inside the callee (it may already have written accepted
+        # candidates) must not be swallowed around the call
+        par = getattr(st, '_parent', None)
+        child = st
+        while par is not None and par is not f:
+            if isinstance(par, ast.Try) and child in par.body:
+                for h in par.handlers:
+                    last = h.body[-1] if h.body else None
+                    ends = isinstance(last, ast.Raise) or (
+                        isinstance(last, ast.Expr) and isinstance(
+                            last.value, ast.Call) and unparse(
+                                last.value.func) in ('sys.exit', 'exit',
+                                                     'os._exit'))
+                    if not ends:
+                        out.append((st, x, None,
+                                    f'"{unparse(st)[:50]}" runs inside a '
+                                    'try whose handler ("except '
+                                    f'{unparse(h.type) if h.type else ""}'
+                                    '") carries on: if the callee fails '
+                                    'after it has written accepted '
+                                    f'candidates, "{x}" still is the input '
+                                    'from before the call'))
+            child, par = par, getattr(par, '_parent', None)
         t = st.targets[0]
         if isinstance(t, (ast.Tuple, ast.List)) and t.elts:
             r0 = t.elts[0]
